@@ -314,7 +314,7 @@ PROPS = {
     },
     "C16": {
         "level": "exploration",
-        "groups": [g("main", "c16", q=8, t=32, run="^Test(Prop)$", gomaxprocs=[4, 1, 2, 16])],
+        "groups": [g("main", "c16", q=8, t=32, run="^Test(Prop|Volume)$", gomaxprocs=[4, 1, 2, 16])],
         "timeout": {"quick": 300, "thorough": 1800},
         "rule": ("generated: 1-16 concurrent callers (SendCall, SendReplyCall, SendCallAndWaitReplayCall) with unique payload markers over iscp.Connect "
                  "and the in-memory broker (both codecs); the broker collects all calls, then emits acks (positive, or negative for chosen callers) "
@@ -322,7 +322,7 @@ PROPS = {
                  "acks and unsolicited incoming calls; two receiver goroutines drain ReceiveCall / ReceiveReplyCall. Oracle: call ids distinct; "
                  "returned id == id the broker saw for that marker; success iff the ack for that id was positive; the awaited reply's RequestCallID "
                  "and payload belong to the caller's own call; inboxes equal the emitted lists in order, once each, field-equal. Non-trivial = >= 3 "
-                 "callers outstanding with permuted acks/replies; distinct by case hash."),
+                 "callers outstanding with permuted acks/replies; distinct by case hash. (volume) long sequential histories on one connection: 300-2100 call-and-wait calls with and without consumers draining the ReceiveCall/ReceiveReplyCall inboxes, after floods of 0-2100 incoming calls and stray replies, stray acks/replies every 1/7 calls; every call must get its own reply (bounded tables: 1024)."),
         "assumptions": ["inbox load stays far below the 1024-item buffers", "the reconnect-between-call-and-ack part of the quantifier is exercised by C05"],
     },
     "C17": {
